@@ -3,6 +3,7 @@ package main
 // C06 — verdict follows the documented precedence, whatever the rule order.
 
 import (
+	"os"
 	"fmt"
 	"go/constant"
 	"go/token"
@@ -225,12 +226,32 @@ func runC06(c *Ctx) {
 					continue
 				}
 				lc, isLeaf := u.Leaves(ef.Val)[cand]
+				if os.Getenv("UFCHECK_DEBUG_C06") != "" {
+					fmt.Fprintf(os.Stderr, "C06DBG store %s := %s (cand leaf=%v)\n", clip(u.Show(ef.Addr), 80), clip(u.Show(ef.Val), 120), isLeaf)
+				}
 				if !isLeaf {
 					continue
 				}
 				adm := *ef
 				adm.Cond = u.bdd.And(ef.Cond, lc)
-				switch ef.Addr.Aux {
+				target := ef.Addr.Aux
+				if target != "DocumentRule" && target != "BasicRule" {
+					// the incumbent may be kept in a cell of its own (a small local struct updated by a
+					// helper) until the scan is over: the result field that then receives the cell's content
+					root := ef.Addr
+					for (root.Op == "faddr" || root.Op == "iaddr") && len(root.Args) > 0 {
+						root = root.Args[0]
+					}
+					if root.Op == "alloc" {
+						for j := range s.Effects {
+							e2 := &s.Effects[j]
+							if e2.Kind == "store" && e2.Addr.Op == "faddr" && (e2.Addr.Aux == "DocumentRule" || e2.Addr.Aux == "BasicRule") && u.Mentions(e2.Val, func(x *E) bool { return x == root }) {
+								target = e2.Addr.Aux
+							}
+						}
+					}
+				}
+				switch target {
 				case "DocumentRule":
 					docStore, docCall = &adm, call
 					c.Check(filtered(coll, ps[1]), "C06.R1", "NewMatchingResult: document-rule loop ranges over filtered sourceRules", site.Pos(),
@@ -306,6 +327,20 @@ func runC06(c *Ctx) {
 					}
 					return false
 				})
+			}
+			if dr == nil {
+				// the document rule kept in a cell until the first scan is over: what is stored into
+				// the DocumentRule field afterwards is what the scope is read from
+				for j := range s.Effects {
+					e2 := &s.Effects[j]
+					if e2.Kind == "store" && e2.Addr.Op == "faddr" && e2.Addr.Aux == "DocumentRule" && (docCall == nil || e2.Val != docCall.Args[0]) {
+						for _, at := range u.AtomsOf(basicStore.Cond) {
+							if u.Mentions(at, func(x *E) bool { return x == e2.Val }) {
+								dr = e2.Val
+							}
+						}
+					}
+				}
 			}
 			names := []string{"OptionCookie", "OptionReplace", "OptionCsp", "OptionStealth"}
 			bad := ""
@@ -419,6 +454,23 @@ func runC06(c *Ctx) {
 						if l.Blocks[p] && s.Env[ph.Edges[i]] != nil {
 							nexts = append(nexts, latchVal{s.Env[ph.Edges[i]], s.RC[p]})
 						}
+					}
+				}
+			}
+			if len(nexts) == 0 {
+				// the incumbent kept in a cell (a small local struct updated by a helper): the stores
+				// into the cell are its replacements
+				for j := range s.Effects {
+					e2 := &s.Effects[j]
+					if e2.Kind != "store" {
+						continue
+					}
+					root := e2.Addr
+					for (root.Op == "faddr" || root.Op == "iaddr") && len(root.Args) > 0 {
+						root = root.Args[0]
+					}
+					if root.Op == "alloc" && u.Mentions(inc, func(x *E) bool { return x == root }) {
+						nexts = append(nexts, latchVal{e2.Val, e2.Cond})
 					}
 				}
 			}
